@@ -1,5 +1,6 @@
 import BeyondVerif.Model.FormsR
 import BeyondVerif.Lemmas.Angle
+import BeyondVerif.Lemmas.Hyp
 import BeyondVerif.Generated.FormTables
 import BeyondVerif.Props.C20
 import Mathlib.Tactic.LinearCombination
@@ -137,25 +138,41 @@ theorem circ_kepl_circ (mu a ex ey i Ω u : ℝ) (h : ex ^ 2 + ey ^ 2 ≠ 0) :
   obtain ⟨h1, h2⟩ := atan2_div_norm h
   simp only [keplToCirc, app6, circToKepl, powi, sqrt, cos, sin, h1, h2, add_sub_cancel]
 
-/-- mean → mean-circular → mean (`e > 0`): a, e, i, Ω exactly; ω and M as the same points of the circle.
-For an ellipse that is the same orbit state; for a hyperbola `M` is *not* an angle — see `Witness/C01.lean` and the
-known finding `mean-circular-hyperbolic-M-mod-2pi`. -/
-theorem mean_mcirc_mean (mu a e i Ω ω M : ℝ) (he : 0 < e) :
+/-- mean → mean-circular → mean, ellipse (`0 < e < 1`): a, e, i, Ω exactly; ω and M as the same points of the circle
+(for an ellipse that is the same orbit state). -/
+theorem mean_mcirc_mean (mu a e i Ω ω M : ℝ) (he : 0 < e) (h1 : e < 1) :
     ∃ ω' M', app6 mcircToMean mu (meanToMcirc mu a e i Ω ω M) = [a, e, i, Ω, ω', M'] ∧ AngEq ω' ω ∧ AngEq M' M ∧
       (-Real.pi < ω ∧ ω ≤ Real.pi → ω' = ω) := by
   refine ⟨atan2 (Real.sin ω) (Real.cos ω), fmod (ω + M) (2 * pi) - atan2 (Real.sin ω) (Real.cos ω), ?_, atan2_sin_cos ω, ?_, ?_⟩
-  · simp only [meanToMcirc, app6, mcircToMean, powi, sqrt, cos, sin, sqrt_ecs e ω he.le, mul_div_cancel_left₀ _ he.ne']
+  · simp only [meanToMcirc, app6, mcircToMean, powi, sqrt, cos, sin, sqrt_ecs e ω he.le, mul_div_cancel_left₀ _ he.ne', if_pos h1]
   · have := (fmod_two_pi_angEq (ω + M)).sub (atan2_sin_cos ω)
     simpa using this
   · intro hω
     have hm := atan2_mem (Real.cos ω) (Real.sin ω)
     exact AngEq.eq_of_mem_Ioc (lo := -Real.pi) (atan2_sin_cos ω) ⟨hm.1, by linarith [hm.2]⟩ ⟨hω.1, by linarith [hω.2]⟩
 
-/-- mean-circular → mean → mean-circular (`(ex, ey) ≠ 0`): all six numbers exactly, α reduced to `[0, 2π)`. -/
+/-- **mean → mean-circular → mean, hyperbola (`e ≥ 1`): the mean anomaly is returned EXACTLY** (it is not an angle;
+false before fix 3686717, which is why this statement was only available modulo 2π), ω as the same point of the circle. -/
+theorem mean_mcirc_mean_hyperbolic (mu a e i Ω ω M : ℝ) (h1 : 1 ≤ e) :
+    ∃ ω', app6 mcircToMean mu (meanToMcirc mu a e i Ω ω M) = [a, e, i, Ω, ω', M] ∧ AngEq ω' ω := by
+  have he : 0 < e := by linarith
+  have hne1 : ¬ e < 1 := not_lt.mpr h1
+  have hm := fmod_mem (x := ω) two_pi_pos
+  have hf : fmod (atan2 (Real.sin ω) (Real.cos ω)) (2 * pi) = fmod ω (2 * pi) :=
+    fmod_two_pi_eq_of_angEq ((atan2_sin_cos ω).trans (fmod_two_pi_angEq ω).symm) ⟨hm.1, by simpa using hm.2⟩
+  refine ⟨atan2 (Real.sin ω) (Real.cos ω), ?_, atan2_sin_cos ω⟩
+  simp only [meanToMcirc, app6, mcircToMean, powi, sqrt, cos, sin, sqrt_ecs e ω he.le, mul_div_cancel_left₀ _ he.ne', if_neg hne1, hf,
+    add_sub_cancel_left]
+
+/-- mean-circular → mean → mean-circular (`(ex, ey) ≠ 0`): all six numbers exactly; α reduced to `[0, 2π)` for an
+ellipse, untouched for a hyperbola. -/
 theorem mcirc_mean_mcirc (mu a ex ey i Ω α : ℝ) (h : ex ^ 2 + ey ^ 2 ≠ 0) :
-    app6 meanToMcirc mu (mcircToMean mu a ex ey i Ω α) = [a, ex, ey, i, Ω, fmod α (2 * pi)] := by
+    app6 meanToMcirc mu (mcircToMean mu a ex ey i Ω α)
+      = [a, ex, ey, i, Ω, if Real.sqrt (ex ^ 2 + ey ^ 2) < 1 then fmod α (2 * pi) else α] := by
   obtain ⟨h1, h2⟩ := atan2_div_norm h
-  simp only [meanToMcirc, app6, mcircToMean, powi, sqrt, cos, sin, h1, h2, add_sub_cancel]
+  by_cases hc : Real.sqrt (ex ^ 2 + ey ^ 2) < 1
+  · simp only [meanToMcirc, app6, mcircToMean, powi, sqrt, cos, sin, h1, h2, add_sub_cancel, if_pos hc]
+  · simp only [meanToMcirc, app6, mcircToMean, powi, sqrt, cos, sin, h1, h2, add_sub_cancel, if_neg hc]
 
 /-- mean → TLE → mean is the identity for `a > 0` (`n = √(µ/a³)`, `a = (µ/n²)^(1/3)`). -/
 theorem mean_tle_mean (mu a e i Ω ω M : ℝ) (hmu : 0 < mu) (ha : 0 < a) :
@@ -414,35 +431,64 @@ theorem m2eLoop_exit (fuel : Nat) (e M X X1 R : ℝ) (hX : X1 = m2eNext X e M) (
       · rw [← hX]; exact (Option.some.inj h).symm
       · rw [← Option.some.inj h]; exact not_le.mp hc
 
+/-- `Form.M2E` = reduce, iterate, add back: a returned value is `finish (next X)` for an iterate `X` of the loop run
+on the reduced mean anomaly, with `|next X − X| < tol`. -/
 theorem m2e_exit (fuel : Nat) (e M R : ℝ) (h : m2e fuel e M = some R) :
-    ∃ Xp, R = m2eNext Xp e M ∧ |R - Xp| < m2eTol :=
-  m2eLoop_exit fuel e M _ _ R rfl h
+    ∃ X1 Xp, R = m2eFinish e X1 (m2eExtra e M) ∧ X1 = m2eNext Xp e (m2eReduced e M) ∧ |X1 - Xp| < m2eTol := by
+  simp only [m2e, Option.map_eq_some_iff] at h
+  obtain ⟨X1, hl, rfl⟩ := h
+  obtain ⟨Xp, h1, h2⟩ := m2eLoop_exit fuel e _ _ _ X1 rfl hl
+  exact ⟨X1, Xp, rfl, h1, h2⟩
 
 theorem m2eTol_pos : (0 : ℝ) < m2eTol := by unfold m2eTol; norm_num
+theorem m2eTol_le : m2eTol ≤ (1 : ℝ) := by unfold m2eTol; norm_num
 
-/-- **Kepler-equation residual, ellipse** (`0 ≤ e < 1`), for every fuel and whatever the start branch: if `M2E`
-returns `E` then `|E − e sin E − M| < 2·tol·(1+e)`. -/
+/-- ellipse: the anomaly the loop works on is `M` minus a whole number `k` of turns, that number of turns is added back -/
+theorem m2e_reduction_elliptic (e M : ℝ) (h1 : e < 1) :
+    ∃ k : ℤ, m2eExtra e M = k * (2 * Real.pi) ∧ m2eReduced e M = M - k * (2 * Real.pi) ∧
+      -Real.pi ≤ m2eReduced e M ∧ m2eReduced e M < Real.pi := by
+  refine ⟨⌊(M + Real.pi) / (2 * Real.pi)⌋, ?_, ?_, ?_, ?_⟩
+  · simp only [m2eExtra, if_pos h1, floorR, pi]; ring
+  · simp only [m2eReduced, if_pos h1, floorR, pi]; ring
+  · simp only [m2eReduced, if_pos h1, floorR, pi]
+    have := Int.floor_le ((M + Real.pi) / (2 * Real.pi))
+    have hp := Real.pi_pos
+    have h3 : (M + Real.pi) / (2 * Real.pi) * (2 * Real.pi) = M + Real.pi := by field_simp
+    nlinarith
+  · simp only [m2eReduced, if_pos h1, floorR, pi]
+    have := Int.lt_floor_add_one ((M + Real.pi) / (2 * Real.pi))
+    have hp := Real.pi_pos
+    have h3 : (M + Real.pi) / (2 * Real.pi) * (2 * Real.pi) = M + Real.pi := by field_simp
+    nlinarith
+
+/-- **Kepler-equation residual, ellipse** (`0 ≤ e < 1`), for every fuel, every `M` (any number of revolutions) and
+whatever the start branch: if `M2E` returns `E` then `|E − e sin E − M| < 2·tol·(1+e)`. -/
 theorem m2e_residual_elliptic (fuel : Nat) (e M R : ℝ) (h0 : 0 ≤ e) (h1 : e < 1) (h : m2e fuel e M = some R) :
     |R - e * Real.sin R - M| < 2 * m2eTol * (1 + e) := by
-  obtain ⟨X, hR, hd⟩ := m2e_exit fuel e M R h
+  obtain ⟨Y, X, hR, hY, hd⟩ := m2e_exit fuel e M R h
+  obtain ⟨k, hk, hMr, _, _⟩ := m2e_reduction_elliptic e M h1
+  set Mr := m2eReduced e M
   have hD : 0 < 1 - e * Real.cos X := by nlinarith [Real.neg_one_le_cos X, Real.cos_le_one X]
   have hD2 : 1 - e * Real.cos X ≤ 1 + e := by nlinarith [Real.neg_one_le_cos X, Real.cos_le_one X]
-  simp only [m2eNext, if_pos h1, cos, sin] at hR
-  have hstep : (R - X) * (1 - e * Real.cos X) = M - X + e * Real.sin X := by
-    rw [hR]; field_simp; ring
-  have hres : |M - X + e * Real.sin X| < m2eTol * (1 + e) := by
+  simp only [m2eNext, if_pos h1, cos, sin] at hY
+  simp only [m2eFinish, if_pos h1, hk] at hR
+  have hstep : (Y - X) * (1 - e * Real.cos X) = Mr - X + e * Real.sin X := by
+    rw [hY]; field_simp; ring
+  have hres : |Mr - X + e * Real.sin X| < m2eTol * (1 + e) := by
     rw [← hstep, abs_mul, abs_of_pos hD]
-    calc |R - X| * (1 - e * Real.cos X) ≤ |R - X| * (1 + e) := by gcongr
+    calc |Y - X| * (1 - e * Real.cos X) ≤ |Y - X| * (1 + e) := by gcongr
       _ < m2eTol * (1 + e) := by gcongr
-  have hsin := Real.abs_sin_sub_sin_le R X
-  have key : R - e * Real.sin R - M = (R - X) - e * (Real.sin R - Real.sin X) - (M - X + e * Real.sin X) := by ring
+  have hsin := Real.abs_sin_sub_sin_le Y X
+  have hsR : Real.sin R = Real.sin Y := by rw [hR, Real.sin_add_int_mul_two_pi]
+  have key : R - e * Real.sin R - M = (Y - X) - e * (Real.sin Y - Real.sin X) - (Mr - X + e * Real.sin X) := by
+    rw [hsR, hR, hMr]; ring
   rw [key]
-  have h3 : |e * (Real.sin R - Real.sin X)| ≤ e * |R - X| := by
+  have h3 : |e * (Real.sin Y - Real.sin X)| ≤ e * |Y - X| := by
     rw [abs_mul, abs_of_nonneg h0]; gcongr
   have hT := m2eTol_pos
-  calc |R - X - e * (Real.sin R - Real.sin X) - (M - X + e * Real.sin X)|
-      ≤ |R - X - e * (Real.sin R - Real.sin X)| + |M - X + e * Real.sin X| := abs_sub _ _
-    _ ≤ |R - X| + |e * (Real.sin R - Real.sin X)| + |M - X + e * Real.sin X| := by gcongr; exact abs_sub _ _
+  calc |Y - X - e * (Real.sin Y - Real.sin X) - (Mr - X + e * Real.sin X)|
+      ≤ |Y - X - e * (Real.sin Y - Real.sin X)| + |Mr - X + e * Real.sin X| := abs_sub _ _
+    _ ≤ |Y - X| + |e * (Real.sin Y - Real.sin X)| + |Mr - X + e * Real.sin X| := by gcongr; exact abs_sub _ _
     _ < 2 * m2eTol * (1 + e) := by nlinarith
 
 /-- **mean → eccentric → mean, ellipse**: the mean anomaly is reproduced within `2·tol·(1+e)` (tol = 1e-8 in the source). -/
@@ -456,7 +502,7 @@ theorem mean_ecc_mean_elliptic (fuel : Nat) (mu a e i Ω ω M : ℝ) (h0 : 0 ≤
 
 /-- **eccentric → mean → eccentric, ellipse**: Kepler's function `E ↦ E − e sin E` is strictly increasing with slope
 at least `1 − e`, so the eccentric anomaly returned by the solver is within `2·tol·(1+e)/(1−e)` of the original one
-— for every `E` (also negative or beyond 2π), every fuel, every start branch. -/
+— for every `E` (also negative or many revolutions away), every fuel, every start branch. -/
 theorem ecc_mean_ecc_elliptic (fuel : Nat) (mu a e i Ω ω E : ℝ) (h0 : 0 ≤ e) (h1 : e < 1) (c : List ℝ)
     (h : (match eccToMean mu a e i Ω ω E with
           | [a, e, i, Ω, ω, M] => meanToEcc fuel mu a e i Ω ω M
@@ -473,27 +519,74 @@ theorem ecc_mean_ecc_elliptic (fuel : Nat) (mu a e i Ω ω E : ℝ) (h0 : 0 ≤ 
   rw [key] at hres
   have h3 : |e * (Real.sin R - Real.sin E)| ≤ e * |R - E| := by
     rw [abs_mul, abs_of_nonneg h0]; gcongr
-  have h4 : |R - E| - |e * (Real.sin R - Real.sin E)| ≤ |R - E - e * (Real.sin R - Real.sin E)| := by
-    have := abs_sub_abs_le_abs_sub (R - E) (e * (Real.sin R - Real.sin E))
-    exact this
+  have h4 : |R - E| - |e * (Real.sin R - Real.sin E)| ≤ |R - E - e * (Real.sin R - Real.sin E)| :=
+    abs_sub_abs_le_abs_sub (R - E) (e * (Real.sin R - Real.sin E))
   nlinarith
 
-/-- hyperbolic analogue (partial): what the exit test of the loop gives for `e ≥ 1` — the returned value is one Newton
-step `H + (M − e sinh H + H)/(e cosh H − 1)` away from an iterate `H` with `|step| < tol`, hence
-`|M − e sinh H + H| < tol·(e cosh H − 1)` at that iterate. A bound at the *returned* value needs a bound on `cosh`
-along the step and is not proved. -/
-theorem m2e_residual_hyperbolic_partial (fuel : Nat) (e M R : ℝ) (h1 : 1 < e) (h : m2e fuel e M = some R) :
-    ∃ H, R = H + (M - e * Real.sinh H + H) / (e * Real.cosh H - 1) ∧ |R - H| < m2eTol ∧
-      |M - e * Real.sinh H + H| < m2eTol * (e * Real.cosh H - 1) := by
-  obtain ⟨X, hR, hd⟩ := m2e_exit fuel e M R h
+/-- **Kepler-equation residual, hyperbola** (`e > 1`), at the *returned* value, for every fuel and whatever the start
+branch (incl. the asymptotic start of fix 31f549a): `|e sinh H − H − M| < 8·e·cosh H·tol²` — the Newton step cancels
+the first-order term exactly, what is left is second order in the last step. -/
+theorem m2e_residual_hyperbolic (fuel : Nat) (e M R : ℝ) (h1 : 1 < e) (h : m2e fuel e M = some R) :
+    |e * Real.sinh R - R - M| < 8 * e * Real.cosh R * m2eTol ^ 2 := by
+  obtain ⟨Y, X, hR, hY, hd⟩ := m2e_exit fuel e M R h
   have hne1 : ¬ e < 1 := not_lt.mpr h1.le
+  have hMr : m2eReduced e M = M := by simp only [m2eReduced, if_neg hne1]
+  simp only [m2eFinish, if_neg hne1] at hR
+  subst hR
+  rw [hMr] at hY
   have hD : 0 < e * Real.cosh X - 1 := by nlinarith [Real.one_le_cosh X]
-  simp only [m2eNext, if_neg hne1, cosh, sinh] at hR
-  refine ⟨X, hR, hd, ?_⟩
-  have hstep : (R - X) * (e * Real.cosh X - 1) = M - e * Real.sinh X + X := by
-    rw [hR]; field_simp; ring
-  rw [← hstep, abs_mul, abs_of_pos hD]
-  gcongr
+  simp only [m2eNext, if_neg hne1, cosh, sinh] at hY
+  set d := R - X with hdd
+  have hstep : d * (e * Real.cosh X - 1) = M - e * Real.sinh X + X := by
+    rw [hdd, hY]; field_simp; ring
+  have hd1 : |d| ≤ 1 := le_trans hd.le m2eTol_le
+  have hrem := Hyp.abs_sinh_add_sub_le (X := X) hd1
+  have hRX : R = X + d := by rw [hdd]; ring
+  have key : e * Real.sinh R - R - M = e * (Real.sinh (X + d) - Real.sinh X - d * Real.cosh X) := by
+    rw [← hRX]; linear_combination hstep
+  rw [key, abs_mul, abs_of_pos (by linarith : (0 : ℝ) < e)]
+  have h4 := Hyp.cosh_le_four_mul (X := X) (R := R) hd1
+  have hd2 : d ^ 2 < m2eTol ^ 2 := by
+    have := abs_nonneg d
+    rw [← sq_abs d]; exact pow_lt_pow_left₀ hd (abs_nonneg d) (by norm_num)
+  have hcX := Real.cosh_pos X
+  have hcR := Real.cosh_pos R
+  have he0 : (0 : ℝ) < e := by linarith
+  calc e * |Real.sinh (X + d) - Real.sinh X - d * Real.cosh X|
+      ≤ e * (2 * Real.cosh X * d ^ 2) := by gcongr
+    _ ≤ e * (2 * (4 * Real.cosh R) * d ^ 2) := by gcongr
+    _ < e * (2 * (4 * Real.cosh R) * m2eTol ^ 2) := by gcongr
+    _ = 8 * e * Real.cosh R * m2eTol ^ 2 := by ring
+
+/-- **mean → eccentric → mean, hyperbola**: the mean anomaly is reproduced within `8·e·cosh H·tol²`. -/
+theorem mean_ecc_mean_hyperbolic (fuel : Nat) (mu a e i Ω ω M : ℝ) (h1 : 1 < e) (c : List ℝ)
+    (h : meanToEcc fuel mu a e i Ω ω M = some c) :
+    ∃ H M', c = [a, e, i, Ω, ω, H] ∧ app6 eccToMean mu c = [a, e, i, Ω, ω, M'] ∧
+      |M' - M| < 8 * e * Real.cosh H * m2eTol ^ 2 := by
+  have hne1 : ¬ e < 1 := not_lt.mpr h1.le
+  simp only [meanToEcc, Option.map_eq_some_iff] at h
+  obtain ⟨R, hR, rfl⟩ := h
+  refine ⟨R, e * Real.sinh R - R, rfl, ?_, m2e_residual_hyperbolic fuel e M R h1 hR⟩
+  simp only [app6, eccToMean, if_neg hne1, sinh]
+
+/-- **eccentric → mean → eccentric, hyperbola**: `H ↦ e sinh H − H` expands distances by at least `e − 1`, so the
+hyperbolic anomaly returned by the solver is within `8·e·cosh H'·tol²/(e−1)` of the original one, for every `H`. -/
+theorem ecc_mean_ecc_hyperbolic (fuel : Nat) (mu a e i Ω ω H : ℝ) (h1 : 1 < e) (c : List ℝ)
+    (h : (match eccToMean mu a e i Ω ω H with
+          | [a, e, i, Ω, ω, M] => meanToEcc fuel mu a e i Ω ω M
+          | _ => none) = some c) :
+    ∃ H', c = [a, e, i, Ω, ω, H'] ∧ |H' - H| < 8 * e * Real.cosh H' * m2eTol ^ 2 / (e - 1) := by
+  have hne1 : ¬ e < 1 := not_lt.mpr h1.le
+  simp only [eccToMean, if_neg hne1, sinh, meanToEcc, Option.map_eq_some_iff] at h
+  obtain ⟨R, hR, rfl⟩ := h
+  refine ⟨R, rfl, ?_⟩
+  have hres := m2e_residual_hyperbolic fuel e _ R h1 hR
+  have hexp := Hyp.kepler_hyp_expanding (e := e) (a := R) (b := H) h1.le
+  have h1e : 0 < e - 1 := by linarith
+  rw [lt_div_iff₀ h1e]
+  have : e * Real.sinh R - R - (e * Real.sinh H - H) = (e * Real.sinh R - R) - (e * Real.sinh H - H) := by ring
+  rw [this] at hres
+  nlinarith
 
 /-! ## invariance under the circle relation -/
 
@@ -609,7 +702,7 @@ theorem infos_hyperbolic (mu r a e nu : ℝ) (hmu : 0 < mu) (ha : a < 0) (h1 : 1
   · field_simp
   · field_simp
 
-/-! ## keplerian ↔ cartesian (partial) -/
+/-! ## keplerian ↔ cartesian -/
 
 /-- **keplerian → cartesian, definition-truth of the result (partial round trip)**: for `µ p ≥ 0`, `p = a(1−e²) ≠ 0`,
 `1 + e cos ν ≠ 0` the state returned by the code has radius `r = p/(1+e cos ν)`, speed given by vis-viva
@@ -650,23 +743,63 @@ theorem keplToCart_radius_speed_momentum (mu a e i Ω ω ν x y z vx vy vz : ℝ
   · field_simp; linear_combination (H * ci * cn * e + H * ci * cu ^ 2 + H * ci * su ^ 2) * h1 + (H * cO ^ 2 * ci * cn * e + H * ci + H * ci * cn * e * sO ^ 2) * h3
 
 
-/-- **keplerian → cartesian → keplerian, partial**: a, e, i are recovered exactly and Ω as the same point of the circle
-(`µ > 0`, `a ≠ 0`, `e ≥ 0`, `p = a(1−e²) > 0`, `1 + e cos ν > 0`, `0 < i < π`; ellipses and hyperbolas alike).
-The full statement also needs ω and ν (the perigee/anomaly split of `cartesian → keplerian`); that part is not proved. -/
-theorem kepl_cart_kepl_partial (mu a e i Ω ω ν : ℝ) (hmu : 0 < mu) (ha : a ≠ 0) (he0 : 0 ≤ e)
+/-- more definition-truth of `keplerian → cartesian`: `r·v = √(µp)·e sin ν·r/p`, `z = r sin i sin(ω+ν)` and the
+component of the position along the node line `x cos Ω + y sin Ω = r cos(ω+ν)` -/
+theorem keplToCart_dot_node (mu a e i Ω ω ν x y z vx vy vz : ℝ)
+    (ha : a ≠ 0) (he : 1 - e ^ 2 ≠ 0) (hD : 1 + e * Real.cos ν ≠ 0)
+    (h : keplToCart mu a e i Ω ω ν = [x, y, z, vx, vy, vz]) :
+    let r := a * (1 - e ^ 2) / (1 + e * Real.cos ν)
+    let hh := Real.sqrt (mu * (a * (1 - e ^ 2)))
+    vx * x + vy * y + vz * z = hh * (e * Real.sin ν * r / (a * (1 - e ^ 2))) ∧
+    z = r * (Real.sin i * Real.sin (ω + ν)) ∧ x * Real.cos Ω + y * Real.sin Ω = r * Real.cos (ω + ν) := by
+  intro r hh
+  simp only [keplToCart, powi, sqrt, cos, sin, List.cons.injEq, and_true] at h
+  obtain ⟨rfl, rfl, rfl, rfl, rfl, rfl⟩ := h
+  have h1 := Real.sin_sq_add_cos_sq Ω
+  have h2 := Real.sin_sq_add_cos_sq i
+  have h3 := Real.sin_sq_add_cos_sq (ω + ν)
+  simp only [r]
+  change _ = Real.sqrt (mu * (a * (1 - e ^ 2))) * _ ∧ _ ∧ _
+  generalize Real.sqrt (mu * (a * (1 - e ^ 2))) = H at *
+  generalize Real.cos Ω = cO at *
+  generalize Real.sin Ω = sO at *
+  generalize Real.cos i = ci at *
+  generalize Real.sin i = si at *
+  generalize Real.cos (ω + ν) = cu at *
+  generalize Real.sin (ω + ν) = su at *
+  generalize Real.cos ν = cn at *
+  generalize Real.sin ν = sn at *
+  refine ⟨?_, ?_, ?_⟩
+  · field_simp; linear_combination (H * ci ^ 2 * cn * cu * e * su + H * ci ^ 2 * cu * su + (-1) * H * ci ^ 2 * cu ^ 2 * e * sn + H * ci ^ 2 * e * sn + (-1) * H * cn * cu * e * su + (-1) * H * cu * su + H * cu ^ 2 * e * sn) * h1 + (H * cn * cu * e * su + H * cu * su + H * e * sn * su ^ 2) * h2 + (H * cO ^ 2 * ci ^ 2 * e * sn + H * ci ^ 2 * e * sO ^ 2 * sn + (-1) * H * ci ^ 2 * e * sn + H * e * sn) * h3
+  · ring
+  · field_simp; linear_combination (cu) * h1
+
+
+/-- **keplerian → cartesian → keplerian, in full** (`µ > 0`, `a ≠ 0`, `e > 0`, `p = a(1−e²) > 0`, `1 + e cos ν > 0`,
+`0 < i < π`; ellipses and hyperbolas alike): a, e, i are recovered exactly, Ω, ω, ν as the same points of the circle and
+exactly when they lie in `[0, 2π)` — the range `cartesian → keplerian` itself produces. -/
+theorem kepl_cart_kepl (mu a e i Ω ω ν : ℝ) (hmu : 0 < mu) (ha : a ≠ 0) (he0 : 0 < e)
     (hp : 0 < a * (1 - e ^ 2)) (hD : 0 < 1 + e * Real.cos ν) (hi : 0 < i ∧ i < Real.pi) :
-    ∃ Ω', (app6 cartToKepl mu (keplToCart mu a e i Ω ω ν)).take 4 = [a, e, i, Ω'] ∧ AngEq Ω' Ω := by
+    ∃ Ω' ω' ν', app6 cartToKepl mu (keplToCart mu a e i Ω ω ν) = [a, e, i, Ω', ω', ν'] ∧
+      AngEq Ω' Ω ∧ AngEq ω' ω ∧ AngEq ν' ν ∧
+      (0 ≤ Ω ∧ Ω < 2 * Real.pi → Ω' = Ω) ∧ (0 ≤ ω ∧ ω < 2 * Real.pi → ω' = ω) ∧ (0 ≤ ν ∧ ν < 2 * Real.pi → ν' = ν) := by
   have he : 1 - e ^ 2 ≠ 0 := by rintro h; rw [h] at hp; simp at hp
   have hmp : 0 < mu * (a * (1 - e ^ 2)) := by positivity
   obtain ⟨x, y, z, vx, vy, vz, hk⟩ : ∃ x y z vx vy vz, keplToCart mu a e i Ω ω ν = [x, y, z, vx, vy, vz] := by
     simp only [keplToCart]; exact ⟨_, _, _, _, _, _, rfl⟩
   obtain ⟨f1, f2, f3, f4, f5⟩ := keplToCart_radius_speed_momentum mu a e i Ω ω ν x y z vx vy vz hmp.le ha he hD.ne' hk
+  obtain ⟨f6, f7, f8⟩ := keplToCart_dot_node mu a e i Ω ω ν x y z vx vy vz ha he hD.ne' hk
   have hH : 0 < Real.sqrt (mu * (a * (1 - e ^ 2))) := Real.sqrt_pos.mpr hmp
   have hHH : Real.sqrt (mu * (a * (1 - e ^ 2))) ^ 2 = mu * (a * (1 - e ^ 2)) := Real.sq_sqrt hmp.le
   have hr : 0 < a * (1 - e ^ 2) / (1 + e * Real.cos ν) := by positivity
+  have hrD : a * (1 - e ^ 2) / (1 + e * Real.cos ν) * (1 + e * Real.cos ν) = a * (1 - e ^ 2) := by field_simp
   have hsi : 0 < Real.sin i := Real.sin_pos_of_pos_of_lt_pi hi.1 hi.2
   have h1 := Real.sin_sq_add_cos_sq Ω
   have h2 := Real.sin_sq_add_cos_sq i
+  have hsp : Real.sqrt (a * (1 - e ^ 2) / mu) * Real.sqrt (mu * (a * (1 - e ^ 2))) = a * (1 - e ^ 2) := by
+    rw [← Real.sqrt_mul (by positivity)]
+    have : a * (1 - e ^ 2) / mu * (mu * (a * (1 - e ^ 2))) = (a * (1 - e ^ 2)) ^ 2 := by field_simp
+    rw [this, Real.sqrt_sq hp.le]
   generalize Real.sqrt (mu * (a * (1 - e ^ 2))) = H at *
   generalize a * (1 - e ^ 2) / (1 + e * Real.cos ν) = r at *
   have hhn : Real.sqrt ((H * (Real.sin i * Real.sin Ω)) ^ 2 + (H * (-(Real.sin i * Real.cos Ω))) ^ 2 + (H * Real.cos i) ^ 2) = H := by
@@ -678,16 +811,119 @@ theorem kepl_cart_kepl_partial (mu a e i Ω ω ν : ℝ) (hmu : 0 < mu) (ha : a 
   have ha' : -mu / (2 * (-mu / (2 * a))) = a := by field_simp
   have he' : Real.sqrt (1 - H ^ 2 / (a * mu)) = e := by
     have : 1 - H ^ 2 / (a * mu) = e ^ 2 := by rw [hHH]; field_simp; ring
-    rw [this, Real.sqrt_sq he0]
+    rw [this, Real.sqrt_sq he0.le]
   have hi' : Real.arccos (H * Real.cos i / H) = i := by
     rw [mul_div_cancel_left₀ _ hH.ne', Real.arccos_cos hi.1.le hi.2.le]
   have hneg : -(H * -(Real.sin i * Real.cos Ω)) = H * Real.sin i * Real.cos Ω := by ring
   have hpos' : H * (Real.sin i * Real.sin Ω) = H * Real.sin i * Real.sin Ω := by ring
   have aΩ : AngEq (fmod (atan2 (H * (Real.sin i * Real.sin Ω)) (H * Real.sin i * Real.cos Ω)) (2 * pi)) Ω := by
     rw [hpos']; exact (fmod_two_pi_angEq _).trans (atan2_scaled (by positivity))
-  refine ⟨_, ?_, aΩ⟩
   rw [hk]
-  simp only [app6, cartToKepl, powi, sqrt, acos, f1, f3, f4, f5, hhn, Real.sqrt_sq hr.le, Real.sq_sqrt (show (0:ℝ) ≤ vx ^ 2 + vy ^ 2 + vz ^ 2 by positivity), f2, Real.sq_sqrt hvv, hK, ha', he', hi', hneg, List.take_succ_cons, List.take_zero]
+  simp only [app6, cartToKepl, powi, sqrt, acos, cos, sin, f1, f3, f4, f5, f6, hhn, Real.sqrt_sq hr.le, Real.sq_sqrt (show (0:ℝ) ≤ vx ^ 2 + vy ^ 2 + vz ^ 2 by positivity), f2, Real.sq_sqrt hvv, hK, ha', he', hi', hneg]
+  simp only [aΩ.1, aΩ.2, f8]
+  rw [f7]
+  have harg1 : Real.sqrt (a * (1 - e ^ 2) / mu) * (H * (e * Real.sin ν * r / (a * (1 - e ^ 2)))) = r * e * Real.sin ν := by
+    have : Real.sqrt (a * (1 - e ^ 2) / mu) * (H * (e * Real.sin ν * r / (a * (1 - e ^ 2))))
+        = (Real.sqrt (a * (1 - e ^ 2) / mu) * H) * (e * Real.sin ν * r / (a * (1 - e ^ 2))) := by ring
+    rw [this, hsp]; field_simp
+  have harg2 : a * (1 - e ^ 2) - r = r * e * Real.cos ν := by rw [← hrD]; ring
+  have harg3 : r * (Real.sin i * Real.sin (ω + ν)) / Real.sin i = r * Real.sin (ω + ν) := by field_simp
+  rw [harg1, harg2, harg3]
+  have aν : AngEq (fmod (atan2 (r * e * Real.sin ν) (r * e * Real.cos ν)) (2 * pi)) ν :=
+    (fmod_two_pi_angEq _).trans (atan2_scaled (by positivity))
+  have aω : AngEq (fmod (atan2 (r * Real.sin (ω + ν)) (r * Real.cos (ω + ν)) -
+      fmod (atan2 (r * e * Real.sin ν) (r * e * Real.cos ν)) (2 * pi)) (2 * pi)) ω := by
+    have := (fmod_two_pi_angEq (atan2 (r * Real.sin (ω + ν)) (r * Real.cos (ω + ν)) -
+      fmod (atan2 (r * e * Real.sin ν) (r * e * Real.cos ν)) (2 * pi))).trans ((atan2_scaled (w := ω + ν) hr).sub aν)
+    simpa using this
+  refine ⟨_, _, _, rfl, aΩ, aω, aν, ?_, ?_, ?_⟩
+  · intro h; exact AngEq.eq_of_mem_Ico (lo := 0) aΩ (by simpa using fmod_mem (x := _) two_pi_pos) (by simpa using h)
+  · intro h; exact AngEq.eq_of_mem_Ico (lo := 0) aω (by simpa using fmod_mem (x := _) two_pi_pos) (by simpa using h)
+  · intro h; exact AngEq.eq_of_mem_Ico (lo := 0) aν (by simpa using fmod_mem (x := _) two_pi_pos) (by simpa using h)
+
+/-- **cartesian → keplerian → cartesian is the identity on every state that is the cartesian view of keplerian elements
+in the domain** (position and velocity, all six numbers, exactly): by `kepl_cart_kepl` the elements read off are the
+original ones up to the circle relation, which `keplerian → cartesian` does not see.
+Not proved: that *every* cartesian state with `h ≠ 0`, `sin i ≠ 0`, `e ≠ 0` is such a view (existence of elements). -/
+theorem cart_kepl_cart_of_image (mu a e i Ω ω ν : ℝ) (hmu : 0 < mu) (ha : a ≠ 0) (he0 : 0 < e)
+    (hp : 0 < a * (1 - e ^ 2)) (hD : 0 < 1 + e * Real.cos ν) (hi : 0 < i ∧ i < Real.pi) :
+    app6 keplToCart mu (app6 cartToKepl mu (keplToCart mu a e i Ω ω ν)) = keplToCart mu a e i Ω ω ν := by
+  obtain ⟨Ω', ω', ν', heq, aΩ, aω, aν, _⟩ := kepl_cart_kepl mu a e i Ω ω ν hmu ha he0 hp hD hi
+  rw [heq]
+  exact keplToCart_respects_angEq mu a e i Ω ω ν Ω' ω' ν' aΩ aω aν
+
+
+/-! ## The whole walk -/
+
+/-- every link of a routed path round-trips exactly on the state the walk actually visits there
+(`(forward method, backward method)` pairs, in the order of the walk) -/
+def RoundTrips (fuel : Nat) (mu : ℝ) : List (String × String) → List ℝ → Prop
+  | [], _ => True
+  | l :: rest, c => ∀ t, step fuel mu l.1 c = some t → step fuel mu l.2 t = some c ∧ RoundTrips fuel mu rest t
+
+theorem walk_append (fuel : Nat) (mu : ℝ) (xs ys : List String) (c : List ℝ) :
+    walk fuel mu (xs ++ ys) c = (walk fuel mu xs c).bind (walk fuel mu ys) := by
+  induction xs generalizing c with
+  | nil => simp [walk]
+  | cons x xs ih =>
+    simp only [List.cons_append, walk]
+    cases step fuel mu x c with
+    | none => simp
+    | some t => simp [ih]
+
+/-- **walk_roundtrip (exact form), one statement over the routed path**: converting along any chain of links and
+back along the reversed chain of the inverse methods returns the start state, provided each link round-trips on the
+state visited there — by induction along the path, from per-link facts. (The per-link theorems of this file supply
+`RoundTrips` wherever the round trip is an equality of numbers; see `walk_roundtrip_cyl_sph` for an instance.
+For links that return angles only as the same points of the circle the composition needs every edge to respect
+`AngEq`, proved here for `keplerian → cartesian/circular` only — general statement open.) -/
+theorem walk_roundtrip_exact (fuel : Nat) (mu : ℝ) (links : List (String × String)) (c d : List ℝ)
+    (hrt : RoundTrips fuel mu links c) (hw : walk fuel mu (links.map Prod.fst) c = some d) :
+    walk fuel mu ((links.map Prod.snd).reverse) d = some c := by
+  induction links generalizing c with
+  | nil => simp only [List.map_nil, walk] at hw; simp [walk, ← Option.some.inj hw]
+  | cons l rest ih =>
+    simp only [List.map_cons, walk] at hw
+    cases hs : step fuel mu l.1 c with
+    | none => rw [hs] at hw; simp at hw
+    | some t =>
+      rw [hs] at hw
+      simp only [Option.bind_some] at hw
+      obtain ⟨hb, hrest⟩ := hrt t hs
+      have := ih t hrest hw
+      simp only [List.map_cons, List.reverse_cons, walk_append, this, Option.bind_some, walk, hb]
+
+/-- instance: cylindrical → cartesian → spherical and back (`r > 0`, `-π < θ ≤ π`): all six cylindrical numbers are
+returned exactly, for every µ, height and rates -/
+theorem walk_roundtrip_cyl_sph (fuel : Nat) (mu r θ z rd θd vz : ℝ) (hr : 0 < r) (hθ : -Real.pi < θ ∧ θ ≤ Real.pi) (d : List ℝ)
+    (hw : walk fuel mu ["cylindrical_to_cartesian", "cartesian_to_spherical"] [r, θ, z, rd, θd, vz] = some d) :
+    walk fuel mu ["spherical_to_cartesian", "cartesian_to_cylindrical"] d = some [r, θ, z, rd, θd, vz] := by
+  have key := walk_roundtrip_exact fuel mu
+    [("cylindrical_to_cartesian", "cartesian_to_cylindrical"), ("cartesian_to_spherical", "spherical_to_cartesian")]
+    [r, θ, z, rd, θd, vz] d ?_ (by simpa using hw)
+  · simpa using key
+  · intro t ht
+    obtain ⟨θ', h1, _, h3⟩ := cyl_cart_cyl mu r θ z rd θd vz hr
+    rw [h3 hθ] at h1
+    have hne : ("cylindrical_to_cartesian" : String) ≠ "keplerian_mean_to_keplerian_eccentric" := by decide
+    have hne2 : ("cartesian_to_cylindrical" : String) ≠ "keplerian_mean_to_keplerian_eccentric" := by decide
+    simp only [step, if_neg hne, edgeByName, Option.map_some, app6, Option.some.injEq] at ht
+    subst ht
+    refine ⟨?_, ?_⟩
+    · simp only [step, if_neg hne2, edgeByName, Option.map_some]; rw [h1]
+    · intro t2 ht2
+      refine ⟨?_, trivial⟩
+      have hne3 : ("cartesian_to_spherical" : String) ≠ "keplerian_mean_to_keplerian_eccentric" := by decide
+      have hne4 : ("spherical_to_cartesian" : String) ≠ "keplerian_mean_to_keplerian_eccentric" := by decide
+      have hxy : (r * Real.cos θ) ^ 2 + (r * Real.sin θ) ^ 2 ≠ 0 := by
+        have : (r * Real.cos θ) ^ 2 + (r * Real.sin θ) ^ 2 = r ^ 2 := by
+          linear_combination (r ^ 2) * Real.sin_sq_add_cos_sq θ
+        rw [this]; positivity
+      simp only [cylToCart, cos, sin] at ht2 ⊢
+      simp only [step, if_neg hne3, edgeByName, Option.map_some, app6, Option.some.injEq] at ht2
+      subst ht2
+      simp only [step, if_neg hne4, edgeByName, Option.map_some]
+      rw [cart_sph_cart mu _ _ _ _ _ _ hxy]
 
 /-! ## Non-vacuity: the hypothesis sets above are met by concrete, non-trivial values -/
 
@@ -697,14 +933,19 @@ example : ((3 : ℝ) ^ 2 + (-4) ^ 2 ≠ 0) := by norm_num
 example : (0 : ℝ) ≤ 1 / 2 ∧ (1 / 2 : ℝ) < 1 := by norm_num
 /-- hyperbola `e = 2` at perigee: `1 + e cos ν > 0` -/
 example : (1 : ℝ) < 2 ∧ (0 : ℝ) < 1 + 2 * Real.cos 0 := by norm_num
-/-- `kepl_cart_kepl_partial` / `infos_fpa_components_unit`: µ = 1, a = 1, e = 1/2, i = 1, ν = 0 -/
+/-- `kepl_cart_kepl` / `cart_kepl_cart_of_image` / `infos_fpa_components_unit`: µ = 1, a = 1, e = 1/2, i = 1, ν = 0 -/
 example : (0 : ℝ) < 1 * (1 - (1 / 2) ^ 2) ∧ (0 : ℝ) < 1 + 1 / 2 * Real.cos 0 ∧ ((0 : ℝ) < 1 ∧ (1 : ℝ) < Real.pi) := by
   refine ⟨by norm_num, by norm_num, by norm_num, by linarith [Real.pi_gt_three]⟩
 /-- the same for a hyperbola: a = -1, e = 2 (`p = a(1 − e²) = 3 > 0`) -/
 example : (0 : ℝ) < (-1) * (1 - 2 ^ 2) := by norm_num
 /-- the Kepler loop does return values: `M2E(0, 0) = 0` after one test of the exit condition -/
 example : m2e 1 0 0 = some 0 := by
-  simp [m2e, m2eLoop, m2eStart, m2eNext, m2eContinue, m2eTol]
+  have hfl : ⌊(0 + Real.pi) / (2 * Real.pi)⌋ = 0 := by
+    rw [Int.floor_eq_iff]; have := Real.pi_pos
+    constructor
+    · simp; positivity
+    · simp; rw [div_lt_one (by positivity)]; linarith
+  simp [m2e, m2eLoop, m2eStart, m2eNext, m2eContinue, m2eTol, m2eReduced, m2eExtra, m2eFinish, floorR, hfl]
   norm_num
 
 end BeyondVerif.C01
